@@ -60,6 +60,7 @@ type Config struct {
 	HB                bool     // happens-before race monitor
 	Trace             bool
 	Params            map[string]int // harness size parameters (verifrt.Param)
+	Redirects         map[string]string // callee name -> "import/path.Func" executed instead ("" = return zero values)
 
 	replayModel  map[string]string
 	replayNative map[string][]any
@@ -582,7 +583,23 @@ func callSSA(i *interpreter, caller *frame, callpos token.Pos, fn *ssa.Function,
 		if fn.Name() == "init" && fn.Pkg != nil && fn.Signature.Recv() == nil && !i.ld.initSet[fn.Pkg] {
 			return nil // initialiser of a package that is not under test: not run (its globals come from stubs)
 		}
-		name := fn.String()
+		name := i.ld.fnName(fn)
+		if len(i.cfg.Redirects) > 0 {
+			if tgt, ok := i.cfg.Redirects[name]; ok {
+				if tgt == "" {
+					// stub: return zero values
+					return zero(fn.Signature.Results())
+				}
+				tf := i.ld.funcByName(tgt)
+				if tf == nil {
+					abortf("redirect target %s for %s not found", tgt, name)
+				}
+				if i.res != nil {
+					i.res.noteFunc(fn)
+				}
+				return callSSA(i, caller, callpos, tf, args, nil)
+			}
+		}
 		if ext := externals[name]; ext != nil {
 			return ext(fr, args)
 		}
